@@ -26,7 +26,10 @@ Definition by_grant_assertion (i : input) : bool :=
 Definition model (i : input) : observed :=
   let other := if by_grant_assertion i then None else names_other_client (i_pres i) in
   match authenticate (i_router i) (i_endpoint i) (i_cfg i)
-          (match other with Some v => victim_reg v | None => i_reg i end)
+          (match other with
+           | Some v => victim_reg v
+           | None => if names_nobody (i_pres i) then nobody_reg else i_reg i
+           end)
           (eff_pres (i_pres i)) (i_pl i) (i_grant i) (own_artefact (i_pres i)) with
   | Granted => ORes S2 ENone (issues_token (i_endpoint i)) (has_effect (i_endpoint i))
                     (match other with Some _ => WOther | None => WSelf end)
@@ -44,7 +47,10 @@ Definition presents_right_secret (p : pres) : bool :=
   end.
 Definition presents_ok_assertion (p : pres) : bool :=
   match p with PAssert AOk | PAssertNoType | PAssertWrongType | PXAssert _ => true | _ => false end.
-Definition identifies (p : pres) : bool := match p with PNone => false | _ => true end.
+(* [presents_right_secret]: the exact secret of X next to the exact id of X; a white-space-only or
+   near-miss secret is not it, nor is X's secret next to a near miss of X's id *)
+(* the request names X: a near miss of X's id names nobody *)
+Definition identifies (p : pres) : bool := match p with PNone | PNearId _ _ => false | _ => true end.
 
 (* "authenticated in the way it is registered" (Appendix D) *)
 Definition cred_valid (c : cfg) (rg : reg) (p : pres) (public_allowed : bool) : bool :=
@@ -75,7 +81,7 @@ Definition capability (c : cfg) (g : grant) : bool :=
    issuer); the library has no op.Client on that path, so no grant registration applies *)
 Definition token_justified (c : cfg) (rg : reg) (p : pres) (g : grant) : bool :=
   match g with
-  | GBearer => r_known rg && r_key rg
+  | GBearer => r_known rg && r_key rg && negb (names_nobody p)   (* ... issued by X, not by a near miss of X's id *)
   | _ => capability c g && registered rg g && cred_valid c rg p (grant_public g)
   end.
 
